@@ -359,7 +359,8 @@ def r13_3(ctx) -> None:
     u = ctx.inlined(ctx.unit("contextlib._AsyncGeneratorContextManager.__aenter__"))
     cfg = cfg_of(u)
     params = u.param_names()
-    spec = {("yield",): "RETURN_YIELDED", ("stop",): "RT", ("new", "OtherExc", None): "PROP"}
+    # (whatever the generator raises before its first yield reaches the caller as it is - a RuntimeError of its own included)
+    spec = {("yield",): "RETURN_YIELDED", ("stop",): "RT", ("new", "OtherExc", None): "PROP", ("new", "RuntimeError", None): "PROP"}
     for reaction, want in spec.items():
         ctx.count("enter_cells")
         env: Dict[str, Any] = {name: ("cls", name) for name in HIER}
